@@ -172,6 +172,15 @@ class SubQueryLineageHolder(ColumnLineageMixin):
                         if source_table := src_wildcard.parent:
                             src_table_columns = []
                             if isinstance(source_table, SubQuery):
+                                if (
+                                    source_table in self.cte
+                                    and NodeTag.WRITE
+                                    not in self.graph.nodes[source_table]
+                                ):
+                                    # a CTE of an enclosing query (never a write target here, see extract_subquery): its
+                                    # columns are not in this graph yet, only those referred to here. Leave the wildcard
+                                    # to the holder that has the CTE body.
+                                    continue
                                 # the columns of SubQuery can be inferred from graph
                                 src_table_columns = self.get_table_columns(source_table)
                             elif isinstance(source_table, Table) and metadata_provider:
